@@ -328,7 +328,8 @@ def r4_who_may_write(ctx):
     for adt, field, allowed, floor in spec:
         ws = [(f, b, how) for f, b, how, _ in field_writes(facts, adt, field) if not f.derived]
         writers = {(f.closure_of or f.name) for f, _, _ in ws}
-        ctx.ob(rule, '%s.%s' % (adt, field), 'writers ⊆ owner methods', writers <= allowed, found=sorted(writers),
+        # a helper all of whose call sites are inside the owner methods is part of them (what the owners toggle is decided by R1-R3)
+        ctx.ob(rule, '%s.%s' % (adt, field), 'writers ⊆ owner methods', writers <= allowed or writers <= facts.only_through(allowed), found=sorted(writers),
                expected=sorted(allowed), why='state that the key (or undo) depends on may only change through its owner methods')
         ctx.floor(rule, 'writers of %s.%s' % (adt, field), len(writers), 1)      # non-vacuity only: a refactoring may legitimately route a writer through a sibling
     # owner methods are called only by the Board delegators
